@@ -10,14 +10,19 @@ user used to reach `int` arithmetic unchecked; the C code now saturates there an
 * `vi_prefix()` stops accumulating digits at `n ≥ 100000000` (`viPrefix`);
 * `vi_cnt()` forms the product of the two counts in `long long` and saturates at 999999999 (`cntOf`);
   `^F` / `^B` scroll by `min (max 1 a1) len * (rows - 1)` lines;
-* `ex_atoi()` saturates at `±NUMMAX = ±2^29` and `ex_lineno()` clamps the running sum after every offset.
+* `ex_num(s, max)` is `strtoll` saturated at `±max`; `ex_atoi()` is `ex_num(·, NUMMAX)`, `NUMMAX = 2^29`;
+  `ex_lineno()` saturates every number of an address at `±TERMMAX = ±2^40`, adds them in `long long` without
+  clamping in between, and saturates the result at `±NUMMAX`: the arithmetic is exact for numbers below
+  `2^40` (`2+4294967298-4294967298` is line 2) and the result cannot leave `int`.
 
 The theorems below say that these bounds do what they are for: every integer the C code computes at
-these places is a value of `int` (`|x| < 2^31`; for the product of `vi_cnt()`, of `long long`).
+these places is a value of `int` (`|x| < 2^31`; for the product of `vi_cnt()` and the sum of `ex_lineno()`,
+of `long long`).
 
-`FitsInt x` is `-2^31 ≤ x ≤ 2^31 - 1`.  `viPrefixChk`, `digitsChk`, `offsChk` are the loops of the model
-with an explicit failure wherever an operation of the C code would leave `int`; they are proved equal to
-the loops of the model, which is the precise form of "no operation overflows, whatever is typed".
+`FitsInt x` is `-2^31 ≤ x ≤ 2^31 - 1`, `FitsLL x` is `-2^63 ≤ x ≤ 2^63 - 1`.  `viPrefixChk`, `digitsChk`,
+`offsChk` (`exLinenoChk`) are the loops of the model with an explicit failure wherever an operation of the
+C code would leave `int` (`long long` for `offsChk`); they are proved equal to the loops of the model,
+which is the precise form of "no operation overflows, whatever is typed".
 Byte strings are lists of character codes: `[52, 50]` = `"42"`.
 -/
 namespace Neatvi.Props.C05b
@@ -112,33 +117,58 @@ theorem page_scroll_bounded_vs (s : VS) (a1 : Int) (hrows : 1 ≤ s.xrows) (hfit
 /-! ## B4. numbers in ex addresses -/
 
 theorem NUMMAX_eq : NUMMAX = 2 ^ 29 := by decide
+theorem TERMMAX_eq : TERMMAX = 2 ^ 40 := by decide
+
+/-- `ex_num(s, mx)` is within `±mx`, for every byte string -/
+theorem exNum_bounded (s : Bytes) (mx : Int) (h : 0 ≤ mx) : -mx ≤ exNum s mx ∧ exNum s mx ≤ mx :=
+  Lemmas.C05b.exNum_bounded s mx h
 
 /-- `ex_atoi` is within `±NUMMAX`, for every byte string -/
 theorem exAtoi_bounded (s : Bytes) : -NUMMAX ≤ exAtoi s ∧ exAtoi s ≤ NUMMAX :=
   Lemmas.C05b.exAtoi_bounded s
 
-/-- one offset of an address: from `n` in `[-NUMMAX - 1, NUMMAX]` the sum `n + ex_atoi(s)` the C code forms
-    before clamping is within `±(2^30 + 1)`, hence an `int` -/
-theorem exLineno_sum_fits (n : Int) (s : Bytes) (h0 : -NUMMAX - 1 ≤ n) (h1 : n ≤ NUMMAX) :
-    -(2 ^ 31) < n + exAtoi s ∧ n + exAtoi s < 2 ^ 31 ∧
-    -NUMMAX ≤ max (-NUMMAX) (min (n + exAtoi s) NUMMAX) ∧ max (-NUMMAX) (min (n + exAtoi s) NUMMAX) ≤ NUMMAX := by
-  obtain ⟨a, b, _, c, d⟩ := offs_step n s h0 h1
-  rw [two_pow_31]
-  exact ⟨by omega, by omega, c, d⟩
+/-- the offset loop of `ex_lineno` started at `n` on the text `s` (`f` is its fuel): the result `m` differs
+    from `n` by at most `TERMMAX` for every offset applied (`offsCount f s` of them), and every offset
+    consumes at least one byte, so `|m - n| ≤ s.length * TERMMAX` -/
+theorem exLineno_offs_bounded (f : Nat) (n : Int) (s : Bytes) :
+    n - offsCount f s * TERMMAX ≤ (exLineno.offs f n s).1 ∧
+    (exLineno.offs f n s).1 ≤ n + offsCount f s * TERMMAX ∧
+    offsCount f s ≤ s.length ∧
+    n - s.length * TERMMAX ≤ (exLineno.offs f n s).1 ∧ (exLineno.offs f n s).1 ≤ n + s.length * TERMMAX :=
+  ⟨(offs_bounded f n s).1, (offs_bounded f n s).2, offsCount_le_length f s,
+    (offs_bounded_length f n s).1, (offs_bounded_length f n s).2⟩
 
-/-- the offset loop of `ex_lineno` with the addition checked against `int` is the loop of the model -/
-theorem exLineno_offs_no_overflow (f : Nat) (n : Int) (s : Bytes) (h0 : -NUMMAX - 1 ≤ n) (h1 : n ≤ NUMMAX) :
-    offsChk f n s = some (exLineno.offs f n s) :=
-  offsChk_eq f n s h0 h1
+/-- an address of at most `EXLEN` (512) bytes and a base within `±(TERMMAX + 1)`: the sum is below `2^63` in
+    absolute value — the `long long` of the C code cannot overflow -/
+theorem exLineno_sum_fits64 (f : Nat) (n : Int) (s : Bytes) (hs : s.length ≤ Gen.EXLEN)
+    (h0 : -TERMMAX - 1 ≤ n) (h1 : n ≤ TERMMAX + 1) :
+    -(2 ^ 63) < (exLineno.offs f n s).1 ∧ (exLineno.offs f n s).1 < 2 ^ 63 := by
+  rw [two_pow_63]
+  exact offs_fits64 f n s hs h0 h1
 
-/-- `ex_lineno` returns a number in `[-NUMMAX - 1, NUMMAX]` — the failure marker `-2` is one of these —
-    provided what it reads from the state is in that range (`AddrFits ed`: `-NUMMAX - 1 ≤ xrow ≤ NUMMAX`,
-    `len ≤ NUMMAX`, every mark `≤ NUMMAX`) -/
-theorem exLineno_bounded (ed ed' : Ed) (loc rest : Bytes) (n : Int) (hf : AddrFits ed)
-    (h : exLineno ed loc = some ((n, rest), ed')) : -NUMMAX - 1 ≤ n ∧ n ≤ NUMMAX :=
-  Lemmas.C05b.exLineno_bounded ed loc hf n rest ed' h
+/-- the offset loop of `ex_lineno` with every addition checked against `long long` is the loop of the model:
+    not only the result, every sum on the way is inside.  (Before, the check was against `int` and the sum
+    was clamped after every offset.) -/
+theorem exLineno_offs_no_overflow (f : Nat) (n : Int) (s : Bytes) (hs : s.length ≤ Gen.EXLEN)
+    (h0 : -TERMMAX - 1 ≤ n) (h1 : n ≤ TERMMAX + 1) : offsChk f n s = some (exLineno.offs f n s) :=
+  offsChk_eq f n s hs h0 h1
 
-/-- the natural situation implies the hypothesis: current row and marks inside a buffer of at most `NUMMAX`
+/-- the same for the whole of `ex_lineno` (`exLinenoChk` is `exLineno` with `offsChk` for the loop): with
+    what it reads from the state in range (`AddrFits ed`: `-NUMMAX - 1 ≤ xrow ≤ NUMMAX`, `len ≤ NUMMAX`,
+    every mark `≤ NUMMAX`) the base is within `[-NUMMAX - 1, TERMMAX - 1]`, what is left of the text is not
+    longer than the text, and no addition overflows -/
+theorem exLineno_no_overflow (ed : Ed) (loc : Bytes) (hf : AddrFits ed) (hlen : loc.length ≤ Gen.EXLEN) :
+    exLinenoChk ed loc = exLineno ed loc :=
+  exLinenoChk_eq ed loc hf hlen
+
+/-- `ex_lineno` returns a number within `±NUMMAX` — the failure marker `-2` is one of these — whatever the
+    state and the text: the sum is clamped once, at the end.  (`AddrFits ed` is what `exLineno_no_overflow`
+    needs; the bound on the result holds without it.) -/
+theorem exLineno_bounded (ed ed' : Ed) (loc rest : Bytes) (n : Int)
+    (h : exLineno ed loc = some ((n, rest), ed')) : -NUMMAX ≤ n ∧ n ≤ NUMMAX :=
+  Lemmas.C05b.exLineno_bounded ed loc n rest ed' h
+
+/-- the natural situation implies `AddrFits`: current row and marks inside a buffer of at most `NUMMAX`
     lines -/
 theorem addrFits_of_inside (ed : Ed) (h0 : -1 ≤ ed.xrow) (h1 : ed.xrow ≤ ed.len) (h2 : ed.len ≤ NUMMAX)
     (hm : ∀ lb c p o, ed.lb = some lb → jump lb c = some (p, o) → p ≤ ed.len) : AddrFits ed :=
@@ -146,8 +176,8 @@ theorem addrFits_of_inside (ed : Ed) (h0 : -1 ≤ ed.xrow) (h1 : ed.xrow ≤ ed.
 
 /-- `AddrFits` is an invariant of address evaluation (`ex_lineno` changes the search keyword only, `;` sets
     the current row to a bounded value), so inside `ex_region` every call of `ex_lineno` is covered by
-    `exLineno_bounded`; the `beg` / `end` delivered are within `[-1, NUMMAX + 1]`, so `ln + 1`, `end0 - 1`,
-    `*end - 1` of `ex_region` are values of `int` -/
+    `exLineno_no_overflow`; `ex_region` computes `ln + 1`, `end0 - 1`, `*end - 1` from results `ln` in
+    `[-1, NUMMAX]`: the `beg` / `end` delivered are within `[-1, NUMMAX + 1]`, values of `int` -/
 theorem exRegion_bounded (ed ed' : Ed) (loc : Bytes) (rc : Nat) (b e : Int) (hf : AddrFits ed)
     (h : exRegion ed loc = some ((rc, b, e), ed')) :
     AddrFits ed' ∧ -1 ≤ b ∧ b ≤ NUMMAX ∧ -1 ≤ e ∧ e ≤ NUMMAX + 1 :=
@@ -163,6 +193,10 @@ theorem exSearch_bounded (ed ed' : Ed) (loc rest : Bytes) (n : Int)
   Lemmas.C05b.exSearch_bounded ed loc n rest ed' h
 
 /-! ## B5. saturation changes nothing for ordinary addresses and rejects the others -/
+
+/-- inside `±mx`, `ex_num` is `atoi` -/
+theorem exNum_small (s : Bytes) (mx : Int) (h0 : -mx ≤ atoi s) (h1 : atoi s ≤ mx) : exNum s mx = atoi s :=
+  Lemmas.C05b.exNum_small s mx h0 h1
 
 /-- inside `±NUMMAX`, `ex_atoi` is `atoi` -/
 theorem exAtoi_small (s : Bytes) (h0 : -NUMMAX ≤ atoi s) (h1 : atoi s ≤ NUMMAX) : exAtoi s = atoi s :=
@@ -182,11 +216,30 @@ theorem exAtoi_huge (s : Bytes) (h : atoi s > NUMMAX) : exAtoi s = NUMMAX :=
 theorem exAtoi_huge_neg (s : Bytes) (h : atoi s < -NUMMAX) : exAtoi s = -NUMMAX :=
   Lemmas.C05b.exAtoi_huge_neg s h
 
+/-- address arithmetic is exact.  The address is a number (the digits `c :: r`), offsets `l` (each a sign,
+    `true` for `-`, and digits; `offsText l` is their text, `offsSum l` their exact sum) and a rest `t` that
+    does not go on with a sign or a digit; every number is at most `TERMMAX = 2^40` (`OffsOk l`).  Then
+    `ex_lineno` returns the exact value `number - 1 + offsets`, clamped to `±NUMMAX` once, and leaves `t` -/
+theorem exLineno_numeric_offsets (ed : Ed) (c : Nat) (r : Bytes) (l : List (Bool × Bytes)) (t : Bytes)
+    (hd : ∀ d ∈ c :: r, isDigitC d = true) (hv : decVal (c :: r) ≤ TERMMAX) (hl : OffsOk l) (ht : NoOffs t) :
+    exLineno ed ((c :: r) ++ (offsText l ++ t)) =
+      some ((max (-NUMMAX) (min (decVal (c :: r) - 1 + offsSum l) NUMMAX), t), ed) :=
+  Lemmas.C05b.exLineno_numeric_offsets ed c r l t hd hv hl ht
+
+/-- hence, when the exact value is a line number (within `±NUMMAX`), `ex_lineno` returns it: no saturation
+    is visible, however large the numbers in between are (up to `2^40`) -/
+theorem exLineno_exact (ed : Ed) (c : Nat) (r : Bytes) (l : List (Bool × Bytes)) (t : Bytes)
+    (hd : ∀ d ∈ c :: r, isDigitC d = true) (hv : decVal (c :: r) ≤ TERMMAX) (hl : OffsOk l) (ht : NoOffs t)
+    (h0 : -NUMMAX ≤ decVal (c :: r) - 1 + offsSum l) (h1 : decVal (c :: r) - 1 + offsSum l ≤ NUMMAX) :
+    exLineno ed ((c :: r) ++ (offsText l ++ t)) = some ((decVal (c :: r) - 1 + offsSum l, t), ed) :=
+  Lemmas.C05b.exLineno_exact ed c r l t hd hv hl ht h0 h1
+
 /-- a purely numeric address `k` with `k - 1 ≥ len` is rejected (`ex_region` returns 1 and leaves the
-    state alone), however large `k` is; `len < NUMMAX` is the standing assumption on buffer sizes -/
+    state alone), however large `k` is: `beg` is `k - 1` saturated at `NUMMAX`, `end` one more; `len < NUMMAX`
+    is the standing assumption on buffer sizes -/
 theorem numeric_address_beyond_rejected (ed : Ed) (loc : Bytes) (hne : loc ≠ [])
     (hd : ∀ d ∈ loc, isDigitC d = true) (hlen : ed.len < NUMMAX) (hk : atoi loc - 1 ≥ ed.len) :
-    exRegion ed loc = some ((1, exAtoi loc - 1, exAtoi loc), ed) :=
+    exRegion ed loc = some ((1, min (atoi loc - 1) NUMMAX, min (atoi loc - 1) NUMMAX + 1), ed) :=
   region_numeric_beyond ed loc hne hd hlen hk
 
 /-! ## B6. non-vacuity -/
@@ -209,21 +262,52 @@ example : exAtoi [52, 50] = 42 := by decide +kernel
 example : cntOf { ed := {}, arg1 := 99999, arg2 := 99999 } = 999999999 := by decide +kernel
 example : cntOf { ed := {}, arg1 := 3, arg2 := 0 } = 3 := by decide +kernel
 
-/-- `:4294967297` on an empty editor state is rejected -/
-example : (exRegion {} [52, 50, 57, 52, 57, 54, 55, 50, 57, 55]).map (·.1) = some (1, 536870911, 536870912) := by
+/-- `:4294967297` on an empty editor state is rejected; `ex_lineno` gives `NUMMAX` for it -/
+example : (exRegion {} [52, 50, 57, 52, 57, 54, 55, 50, 57, 55]).map (·.1) = some (1, 536870912, 536870913) := by
+  decide +kernel
+example : (exLineno {} [52, 50, 57, 52, 57, 54, 55, 50, 57, 55]).map (·.1) = some (536870912, []) := by
   decide +kernel
 
-/-- the hypothesis of `exLineno_bounded` holds of the initial editor state -/
+/-- the hypothesis of `exLineno_no_overflow` and `exRegion_bounded` holds of the initial editor state -/
 example : AddrFits {} :=
   addrFits_of_inside {} (by decide +kernel) (by decide +kernel) (by decide +kernel)
     (fun lb c p o hl _ => by
       have : ({} : Ed).lb = none := by decide +kernel
       rw [this] at hl; cases hl)
 
-/-- `1+4294967296` and `$-99999999999` saturate -/
+/-- `1+4294967296` and `$-99999999999` saturate (the result does; the numbers are below `2^40`) -/
 example : (exLineno {} [49, 43, 52, 50, 57, 52, 57, 54, 55, 50, 57, 54]).map (·.1) = some (536870912, []) := by
   decide +kernel
 example : (exLineno {} [36, 45, 57, 57, 57, 57, 57, 57, 57, 57, 57, 57, 57]).map (·.1) = some (-536870912, []) := by
+  decide +kernel
+
+/-- `2+4294967298-4294967298` is line 2 (row 1): the arithmetic is exact.  By evaluation … -/
+example : (exLineno {} [50, 43, 52, 50, 57, 52, 57, 54, 55, 50, 57, 56, 45, 52, 50, 57, 52, 57, 54, 55, 50, 57, 56]).map
+    (·.1) = some (1, []) := by
+  decide +kernel
+
+/-- … and as an instance of `exLineno_exact`, in any state -/
+example (ed : Ed) :
+    exLineno ed [50, 43, 52, 50, 57, 52, 57, 54, 55, 50, 57, 56, 45, 52, 50, 57, 52, 57, 54, 55, 50, 57, 56] =
+      some ((1, []), ed) :=
+  exLineno_exact ed 50 [] [(false, [52, 50, 57, 52, 57, 54, 55, 50, 57, 56]), (true, [52, 50, 57, 52, 57, 54, 55, 50, 57, 56])]
+    [] (by decide) (by decide +kernel) (by decide +kernel) noOffs_nil (by decide +kernel) (by decide +kernel)
+
+/-- a number beyond `2^40` is saturated before it is added: `1+2199023255552-1099511627776-1099511627776`
+    (`1 + 2^41 - 2^40 - 2^40`, exactly line 1) is computed as `1 + 2^40 - 2^40 - 2^40` and saturates to
+    `-NUMMAX`: out of range, rejected.  Beyond `2^40` the arithmetic is saturating, not exact (and not
+    wrapping): `1+2199023255552-1099511627776` (exactly `2^40 + 1`, out of range) is row 0 -/
+example : (exLineno {} [49, 43, 50, 49, 57, 57, 48, 50, 51, 50, 53, 53, 53, 53, 50, 45, 49, 48, 57, 57, 53, 49, 49, 54,
+    50, 55, 55, 55, 54, 45, 49, 48, 57, 57, 53, 49, 49, 54, 50, 55, 55, 55, 54]).map (·.1) = some (-536870912, []) := by
+  decide +kernel
+
+example : (exLineno {} [49, 43, 50, 49, 57, 57, 48, 50, 51, 50, 53, 53, 53, 53, 50, 45, 49, 48, 57, 57, 53, 49, 49, 54,
+    50, 55, 55, 55, 54]).map (·.1) = some (0, []) := by
+  decide +kernel
+
+/-- the checked loop on the text `+4294967298-4294967298` -/
+example : offsChk 100 1 [43, 52, 50, 57, 52, 57, 54, 55, 50, 57, 56, 45, 52, 50, 57, 52, 57, 54, 55, 50, 57, 56] =
+    some (1, []) := by
   decide +kernel
 
 end Neatvi.Props.C05b
